@@ -31,6 +31,7 @@ func init() { register("C17", runC17) }
 
 func runC17(r *Run) {
 	c17EmptyName(r)
+	c17OddShapes(r)
 	if r.Want("spoof") {
 		c17Spoof(r)
 	}
@@ -43,6 +44,7 @@ func runC17(r *Run) {
 	if r.Want("random") {
 		c17Random(r)
 	}
+	c17HttpPeer(r)
 }
 
 // ---------------------------------------------------------------- failures of a connection
